@@ -35,11 +35,20 @@ RULE = (
     "over all 29 transforms; quick = 3, thorough = 40 independent random problems per cell. Decided per case: error of y, y', y'' (w.r.t. "
     "the original variable) against the exact solution at 24 points (both ends + 22 random) for both solves, prescribed conditions, "
     "transformed == direct, output shape incl. no_derivatives, no exception. A case is non-trivial when a solve converged and was "
-    "compared; 'did not converge' is a discard."
+    "compared; 'did not converge' is a discard. Input classes drawn per case from the case rng (each is a required hook): the whole "
+    "equation (coefficients and right-hand side) multiplied by lambda, log-uniform in [1e-18,1e-6] (20 %) or [1e6,1e12] (10 %) - the "
+    "solution must not change; maps with tiny (1e-7..1e-2, 10 %) or huge (1e2..1e6, 6 %) mean slope through their scale parameter "
+    "(LinearFinite onto tiny/huge intervals, R, rmin, a; 8 decades of the inner scale for the InverseRTransform family); far-out "
+    "intervals up to x = 2000 for the [0,inf) maps (15 %); prescribed data in INTEGER form - the manufactured solution gets a "
+    "polynomial correction that makes y(x0), y'(x0), y''(x0) (BVP: the boundary values) integers, handed over as list of Python "
+    "ints, tuple, int64 / int32 ndarray or mixed int/float list (50 % of the IVPs), BVP values as ints or mixed (50 %); interval "
+    "ends as Python ints, x_span=(1, 3), and an integer ndarray as BVP mesh (25 % of the [0,inf) cases)."
 )
 ASSUMPTIONS = [
     "admissible = order <= 3, leading coefficient >= 0.5, interval strictly inside the transform's domain, increasing map for BVP (solve_bvp needs an increasing mesh), HyperbolicRTransform with b*(number of points-1) < 1 for every array it sees, slope of the map varying by at most a factor 50 over the interval (beyond that SciPy's adaptive error estimates are unreliable next to the branch point of the transformed equation: DOP853 error 0.04 at tol 1e-6 was measured at slope ratio 1700 - a property of the integrator, not of grid)",
     "solver tolerance: rtol = atol = tol for IVP, tol for BVP. accuracy clause: |error of y^(k)| <= F * tol * scale_k, scale_k = max_{s,t} sum_j |Phi(t,s)|_kj v_j(s): v(s) = local tolerance unit tol*(1+|Y^(j)|) of the variables the solver integrates, mapped to the original variable with the Faa di Bruno matrix of the map (g', g'' obtained numerically from the forward map only), Phi = propagator of the homogeneous equation (own tight SciPy integration in the original variable). F = 200 for BVP, 25000 for IVP (calibrated as 100 x the largest ratio seen on the unchanged tree, 1.2 / 248; an IVP solver controls the local error only, the global error grows with the number of steps); equivalence 2F; conditions 10",
+    "the map must be invertible in floating point on the interval: eps*max|r| <= 2e-10*min|g'| (positions are recovered from r with that accuracy; saturating maps far out carry no information about x), g' finite and non-zero; within that envelope no lower or upper bound on |a_K g'^K| or on lambda (measured on the unchanged tree: accurate down to lambda*a_K*g'^K ~ 1e-38)",
+    "a miss of an IVP accuracy clause counts only if it is reproduced when the same library call is repeated with method='Radau' (otherwise: observation 'integrator glitch'). Measured reason: SciPy's initial-step heuristic is not invariant under rescaling of the independent variable - through a map of slope 1e-4 DOP853 took the whole interval in one step and its estimate accepted an error of 4e-5 at tol 1e-10, while RK45/Radau solved the same library-built equation to 1e-9; solve_ode_ivp offers no first_step/max_step. An exception raised by SciPy's own OdeSolution constructor for repeated LSODA time points (first steps of 1e-22 on an interval of length 1e-7) is treated like 'did not converge' (discard)",
     "problems are non-stiff and well conditioned by construction (|a_k/a_K| <~ 2.6, interval length <= 2.5; BVP recipes of DESIGN C15)",
 ]
 LEVEL_TEXT = "Exploration: seeded manufactured problems with exact solutions over the full cross product of kinds, orders, methods, tolerances and transform configurations; held on the executions produced."
